@@ -1,4 +1,7 @@
 import XsgModel.Proofs.StructNames
+import XsgModel.Proofs.PascalLegal
+import XsgModel.Proofs.TextLevel
+import XsgModel.Props.C14
 import XsgModel.Proofs.Hints
 import XsgModel.Model.RustSyntax
 /-!
@@ -12,8 +15,11 @@ For every element tree with unique child names (every parsed tree: `C11_parsed_i
 * `C04_types_resolve`: every field type is `String` or the name of a struct of the same output;
 * `C04_while_terminates`: the two suffix loops terminate (pigeonhole).
 `C04_prefix_negative`: the pinned naming function produced `Self`, `String` and duplicates.
-Character-level legality of the identifiers on the supported alphabet is checked on the implementation's
-output by the decidable predicate `WellFormed` (same definition, `Model/RustSyntax.lean`) — see DESIGN.md.
+* `C04_fields_legal`, `C04_structs_legal`: every field identifier is a legal non-keyword identifier and every
+  struct name a legal type identifier that does not shadow `String`, `Option`, `Vec` — for names whose first
+  alphanumeric character is a letter (`LetterFirst`, implied by C04's side condition `nameOK`), with the
+  character classes of the model (`Model/Chars.lean`, equal to Rust's on the supported alphabet Σ, which the
+  correspondence run checks exhaustively).
 -/
 namespace Xsg
 
@@ -116,6 +122,153 @@ theorem C04_types_resolve (o : Options) (t : Elem) :
       have hsub : (⟨en.path ++ [c.2.name], en.trace ++ [pascal c.2.name], c.2⟩ : Entry) ∈ walk o.sort [] [] t := by
         exact child_entry_mem o.sort en c hcm (by simpa using hto) t [] [] hen
       refine ⟨structOf o _ _ _, List.mem_map_of_mem hsub, rfl⟩
+
+/-- every field name is a legal non-keyword identifier -/
+theorem C04_fields_legal (o : Options) (H : Name → Option Nat) (names' : List (List Name × Name)) (en : Entry)
+    (hn : LetterFirst en.elem.name) (ha : ∀ a ∈ en.elem.attrs, LetterFirst a.2) (hc : ∀ c ∈ en.elem.children, LetterFirst c.2.name)
+    (hnda : (names en.elem.attrs).Nodup) (hndc : (childNames en.elem.children).Nodup) :
+    ∀ f ∈ (structOf o H names' en).fields, legalIdent f.ident = true :=
+  fields_legal o H names' en hn ha hc hnda hndc
+
+/-- C04's side condition implies `LetterFirst` -/
+theorem C04_nameOK_letterFirst (n : Name) (h : nameOK n = true) : LetterFirst n := nameOK_letterFirst h
+
+/-- struct names consist of alphanumeric characters only -/
+theorem C04_struct_name_alnum (o : Options) (t : Elem) : ∀ s ∈ renderAST o t, s.name.all isAlnum = true := by
+  intro s hs
+  obtain ⟨j, digits, hj, hname, hdig⟩ := C14_shape o t s hs
+  rw [hname, List.all_append, Bool.and_eq_true]
+  refine ⟨?_, ?_⟩
+  · rw [List.all_eq_true]
+    intro c hc
+    rw [List.mem_flatten] at hc
+    obtain ⟨l, hl, hcl⟩ := hc
+    have hl' := List.mem_of_mem_drop hl
+    rw [List.mem_map] at hl'
+    obtain ⟨p, _, rfl⟩ := hl'
+    exact (List.all_eq_true.mp (pascal_all_alnum p)) c hcl
+  · rw [List.all_eq_true] at hdig ⊢
+    intro c hc
+    have := hdig c hc
+    simp [isAlnum, this]
+
+/-- every struct name is a legal type identifier: not a keyword, and not `String`, `Option` or `Vec` -/
+theorem C04_structs_legal (o : Options) (t : Elem) (ht : t.Inv = true)
+    (hnames : ∀ en ∈ walk o.sort [] [] t, ∀ p ∈ en.path, LetterFirst p) :
+    ∀ s ∈ renderAST o t, legalTypeIdent s.name = true := by
+  intro s hs
+  obtain ⟨j, digits, hj, hname, hdig⟩ := C14_shape o t s hs
+  have hres := C04_structs_not_reserved o t ht s hs
+  obtain ⟨en, hen, hse⟩ := mem_renderWith hs
+  have hpath : s.path = en.path := by rw [hse]; rfl
+  -- the name starts with the PascalCase form of the `j`-th path element
+  have hdrop : (s.path.map pascal).drop j = pascal (s.path[j]'hj) :: (s.path.map pascal).drop (j + 1) := by
+    rw [List.drop_eq_getElem_cons (by simpa using hj)]; simp
+  have hlf : LetterFirst (s.path[j]'hj) := hnames en hen _ (by rw [← hpath]; exact List.getElem_mem _)
+  have hcap : CapStart s.name := by
+    rw [hname, hdrop, List.flatten_cons, List.append_assoc]
+    exact CapStart_append (pascal_capStart hlf) _
+  have hall : s.name.all isAlnum = true := by
+    rw [hname, List.all_append, Bool.and_eq_true]
+    refine ⟨?_, ?_⟩
+    · rw [List.all_eq_true]
+      intro c hc
+      rw [List.mem_flatten] at hc
+      obtain ⟨l, hl, hcl⟩ := hc
+      have hl' := List.mem_of_mem_drop hl
+      rw [List.mem_map] at hl'
+      obtain ⟨p, _, rfl⟩ := hl'
+      exact (List.all_eq_true.mp (pascal_all_alnum p)) c hcl
+    · rw [List.all_eq_true] at hdig ⊢
+      intro c hc
+      have := hdig c hc
+      simp [isAlnum, this]
+  simp only [legalTypeIdent, Bool.and_eq_true, Bool.not_eq_eq_eq_not, Bool.not_true]
+  refine ⟨legal_of_capStart hcap hall hres.1, ?_⟩
+  simp only [shadowedTypes, List.contains_cons, List.contains_nil, Bool.or_false, Bool.or_eq_false_iff, beq_eq_false_iff_ne]
+  exact ⟨hres.2.1, hres.2.2.1, hres.2.2.2.1⟩
+
+theorem attrField_rename_eq (o : Options) (im : IdentMap) (a : Nec × Name) (r : Name)
+    (h : (attrField o im a).rename = some r) :
+    r = o.attrPrefix ++ (if startsWithXmlns a.2 then a.2 else removeNamespace a.2) := by
+  have h' : (if (identLookup im.attr a.2).getD a.2 ≠ o.attrPrefix ++ (if startsWithXmlns a.2 then a.2 else removeNamespace a.2)
+      then some (o.attrPrefix ++ (if startsWithXmlns a.2 then a.2 else removeNamespace a.2)) else none) = some r := h
+  by_cases hc : (identLookup im.attr a.2).getD a.2 ≠ o.attrPrefix ++ (if startsWithXmlns a.2 then a.2 else removeNamespace a.2)
+  · rw [if_pos hc] at h'; exact (Option.some.inj h').symm
+  · rw [if_neg hc] at h'; cases h'
+
+theorem childField_rename_eq (hints : Name → Option Nat) (names' : List (List Name × Name)) (im : IdentMap)
+    (path trace : List Name) (c : Nec × Elem) (r : Name)
+    (h : (childField hints names' im path trace c).rename = some r) : r = removeNamespace c.2.name := by
+  have h' : (if (identLookup im.child c.2.name).getD c.2.name ≠ removeNamespace c.2.name
+      then some (removeNamespace c.2.name) else none) = some r := h
+  by_cases hc : (identLookup im.child c.2.name).getD c.2.name ≠ removeNamespace c.2.name
+  · rw [if_pos hc] at h'; exact (Option.some.inj h').symm
+  · rw [if_neg hc] at h'; cases h'
+
+/-- the rendered *text* is a sequence of struct items in the renderer's format: reading it back with the reader
+the correspondence check uses on the implementation's output gives exactly the rendered structs (so the
+statements above, which are about the AST, are statements about the text) -/
+theorem C04_text_reads_back (o : Options) (t : Elem)
+    (ho : NoNL o.derive ∧ NoNL o.attrPrefix ∧ NoNL o.textIdent)
+    (hen : ∀ en ∈ walk o.sort [] [] t, nameOK en.elem.name = true ∧ (∀ a ∈ en.elem.attrs, nameOK a.2 = true) ∧
+      (∀ c ∈ en.elem.children, nameOK c.2.name = true) ∧ (names en.elem.attrs).Nodup ∧ (childNames en.elem.children).Nodup) :
+    readProgram (toSerdeStruct o t) = some ((renderAST o t).map StructDef.plain) := by
+  apply readProgram_printAST
+  intro s hs
+  obtain ⟨en, henw, hse⟩ := mem_renderWith hs
+  obtain ⟨h1, h2, h3, h4, h5⟩ := hen en henw
+  have hlegal := C04_fields_legal o (hintOf (fillNames [] t)) (structNames (hintOf (fillNames [] t)) t) en (nameOK_letterFirst h1) (fun a ha => nameOK_letterFirst (h2 a ha))
+    (fun c hc => nameOK_letterFirst (h3 c hc)) h4 h5
+  have nonl_of_alnum : ∀ n : Name, n.all isAlnum = true → NoNL n ∧ PlainBase n := by
+    intro n hn
+    have hh := List.all_eq_true.mp hn
+    refine ⟨fun hm => (alnum_not_special (hh _ hm)).2.1 rfl, fun hm => (alnum_not_special (hh _ hm)).2.2.1 rfl,
+      fun hm => (alnum_not_special (hh _ hm)).2.2.2 rfl⟩
+  have hstring : NoNL stringTy ∧ PlainBase stringTy := nonl_of_alnum _ (by decide)
+  refine ⟨?_, (nonl_of_alnum _ (C04_struct_name_alnum o t s hs)).1, ?_⟩
+  · intro d hd
+    rw [hse] at hd
+    simp only [structOf] at hd
+    split at hd
+    · cases hd
+    · simp only [Option.some.injEq] at hd; subst hd; exact ho.1
+  · intro f hf
+    have hbase : NoNL f.base ∧ PlainBase f.base := by
+      rcases C04_types_resolve o t s hs f hf with hb | ⟨s', hs', hb⟩
+      · rw [hb]; exact hstring
+      · rw [← hb]; exact nonl_of_alnum _ (C04_struct_name_alnum o t s' hs')
+    have hident := legalIdent_chars (hlegal f (by rw [← hse]; exact hf))
+    refine ⟨?_, fun hm => (hident _ hm).1 rfl, fun hm => (hident _ hm).2 rfl, hbase.2, hbase.1⟩
+    -- renames are built from the option strings and (parts of) XML names
+    intro r hr
+    rw [hse] at hf
+    simp only [structOf, List.mem_append, List.mem_map] at hf
+    rcases hf with (⟨a, hsa, rfl⟩ | hf) | ⟨c, hsc, rfl⟩
+    · have hr' := attrField_rename_eq o _ a r hr
+      subst hr'
+      have ham : a ∈ en.elem.attrs := by
+        unfold sortedAttrs at hsa
+        cases hso : o.sort <;> rw [hso] at hsa
+        · exact hsa
+        · exact mem_sortOn.mp hsa
+      have := attrLocal_nonl' (nameOK_nonl (h2 a ham))
+      intro hm
+      simp only [List.mem_append] at hm
+      rcases hm with hm | hm
+      · exact ho.2.1 hm
+      · exact this hm
+    · split at hf
+      · simp only [List.mem_singleton] at hf; subst hf
+        have : (textField o (identMap en.elem)).rename = some o.textIdent := rfl
+        rw [this] at hr
+        rw [← Option.some.inj hr]; exact ho.2.2
+      · cases hf
+    · have hr' := childField_rename_eq _ _ _ _ _ c r hr
+      subst hr'
+      have hcm : c ∈ en.elem.children := mem_sortOn.mp hsc
+      intro hm
+      exact nameOK_nonl (h3 c hcm) (removeNamespace_sub _ _ hm)
 
 /-- the suffix loops of `create_unused_name` and of `compute_struct_names` terminate after at most
 `used.length` increments and return a name that is not in use -/
